@@ -10,6 +10,8 @@
 //   N_NInv, NT_adjoint, NInvT_adjoint, NDotT_adjoint
 // D tag: type x frame classes x direction x option   (trees: tree.n<k>)
 #include "mobilizer_common.h"
+#include <map>
+#include <array>
 using namespace SimTK;
 using namespace mob;
 
@@ -30,29 +32,34 @@ static State shifted(const Sys& S, const State& s0, double h, Stage stage) {
     return s;
 }
 
-static void fdPredicates(const Sys& S, const std::string& key, const std::vector<Case>& cs, const Vec3& station) {
+// per-body keys: velKey[i] for "velocity is the derivative of the pose" / Coriolis of body i (a body is in the narrow
+// class iff it or one of its ancestors is a reversed LineOrientation/FreeLine in quaternion mode)
+static void fdPredicates(const Sys& S, const std::vector<std::string>& velKey, const std::vector<Case>& cs, const Vec3& station) {
     const State& s0 = S.state;
     State sp = shifted(S, s0, H_FD, Stage::Velocity), sm = shifted(S, s0, -H_FD, Stage::Velocity);
-    double eFM = 0, eGB = 0, eSt = 0, eCor = 0;
+    std::map<std::string, std::array<double, 4> > worst;
     for (size_t i = 0; i < cs.size(); ++i) {
         const MobilizedBody& m = S.mobods[i];
-        eFM = std::max(eFM, svDiff(fdVelocity(m.getMobilizerTransform(sm), m.getMobilizerTransform(sp), H_FD), m.getMobilizerVelocity(s0)));
-        eGB = std::max(eGB, svDiff(fdVelocity(m.getBodyTransform(sm), m.getBodyTransform(sp), H_FD), m.getBodyVelocity(s0)));
+        std::array<double, 4>& w = worst.insert(std::make_pair(velKey[i], std::array<double, 4>{{0, 0, 0, 0}})).first->second;
+        w[0] = std::max(w[0], svDiff(fdVelocity(m.getMobilizerTransform(sm), m.getMobilizerTransform(sp), H_FD), m.getMobilizerVelocity(s0)));
+        w[1] = std::max(w[1], svDiff(fdVelocity(m.getBodyTransform(sm), m.getBodyTransform(sp), H_FD), m.getBodyVelocity(s0)));
         const Vec3 pp = m.findStationLocationInGround(sp, station), pm = m.findStationLocationInGround(sm, station);
         const Vec3 vS = m.findStationVelocityInGround(s0, station);
-        eSt = std::max(eSt, maxAbs((pp - pm) / (2 * H_FD) - vS) / std::max(1.0, maxAbs(vS)));
+        w[2] = std::max(w[2], maxAbs((pp - pm) / (2 * H_FD) - vS) / std::max(1.0, maxAbs(vS)));
         // d/dt V_GB with u held fixed is the total Coriolis acceleration Jdot*u
         const SpatialVec Vd = (m.getBodyVelocity(sp) - m.getBodyVelocity(sm)) / (2 * H_FD);
-        eCor = std::max(eCor, svDiff(Vd, S.matter.getTotalCoriolisAcceleration(s0, m.getMobilizedBodyIndex())));
+        w[3] = std::max(w[3], svDiff(Vd, S.matter.getTotalCoriolisAcceleration(s0, m.getMobilizedBodyIndex())));
     }
-    // one key for "reported velocity is the derivative of the reported pose" (mobilizer, body, station)
-    vh::P("fd_X_FM", key + ".fd_velocity", eFM, TOL_FD);
-    vh::P("fd_X_GB", key + ".fd_velocity", eGB, TOL_FD);
-    vh::P("fd_station", key + ".fd_velocity", eSt, TOL_FD);
-    vh::P("fd_cor", key + ".fd_cor", eCor, TOL_FD);
+    for (const auto& kv : worst) {
+        // one key for "reported velocity is the derivative of the reported pose" (mobilizer, body, station)
+        vh::P("fd_X_FM", kv.first + ".fd_velocity", kv.second[0], TOL_FD);
+        vh::P("fd_X_GB", kv.first + ".fd_velocity", kv.second[1], TOL_FD);
+        vh::P("fd_station", kv.first + ".fd_velocity", kv.second[2], TOL_FD);
+        vh::P("fd_cor", kv.first + ".fd_cor", kv.second[3], TOL_FD);
+    }
 }
 
-static void nPredicates(const Sys& S, const std::string& key, const Vector& vu, const Vector& vq, const Vector& udot, bool unitQuats) {
+static void nPredicates(const Sys& S, const std::string& key, const std::vector<std::string>& ndotKey, const Vector& vu, const Vector& vq, const Vector& udot, bool unitQuats) {
     const State& s0 = S.state; const SimbodyMatterSubsystem& M = S.matter;
     const int nq = s0.getNQ(), nu = s0.getNU();
     Vector Nvu(nq), NTvq(nu), NInvvq(nu), NInvTvu(nq), NDotvu(nq), NDotTvq(nu), back(nu);
@@ -70,7 +77,16 @@ static void nPredicates(const Sys& S, const std::string& key, const Vector& vu, 
     State sp = shifted(S, s0, H_FD, Stage::Position), sm = shifted(S, s0, -H_FD, Stage::Position);
     Vector Np(nq), Nm(nq); M.multiplyByN(sp, false, vu, Np); M.multiplyByN(sm, false, vu, Nm);
     Vector fd = (Np - Nm) / (2 * H_FD);
-    vh::P("fd_NDot", key + ".fd_NDot", vecDiff(fd, NDotvu), TOL_FD);
+    {   // N is block diagonal: one predicate per key class, over the q-blocks of the bodies of that class
+        std::map<std::string, double> worst;
+        for (size_t b = 0; b < S.mobods.size(); ++b) {
+            const int q0 = S.mobods[b].getFirstQIndex(s0), n = S.mobods[b].getNumQ(s0);
+            double m = 0, sc = 1;
+            for (int k = 0; k < n; ++k) { m = std::max(m, std::abs(fd[q0 + k] - NDotvu[q0 + k])); sc = std::max(sc, std::max(std::abs(fd[q0 + k]), std::abs(NDotvu[q0 + k]))); }
+            double& w = worst.insert(std::make_pair(ndotKey[b], 0.0)).first->second; w = std::max(w, m / sc);
+        }
+        for (const auto& kv : worst) vh::P("fd_NDot", kv.first + ".fd_NDot", kv.second, TOL_FD);
+    }
     // qdotdot = N udot + NDot u
     Vector qdd(nq), Nud(nq), NDu(nq);
     M.calcQDotDot(s0, udot, qdd); M.multiplyByN(s0, false, udot, Nud); M.multiplyByNDot(s0, false, s0.getU(), NDu);
@@ -110,14 +126,15 @@ static void runCase(const Case& c) {
     { const SpatialVec V = m.getBodyVelocity(s), A = M.getMobilizerCoriolisAcceleration(s, m.getMobilizedBodyIndex());
       vh::O("Vcor").v(V[0], 3).v(V[1], 3).v(A[0], 3).v(A[1], 3).emit(); }
     vh::D(c.tag());
+    if (!c.optTag().empty()) vh::D(c.optTag());
     // key = call site . input class.  LineOrientation / FreeLine in quaternion mode form their own classes
     // (reversedLine.quaternion: velocity vs pose;  line.quaternion: NDot), everything else is keyed by type.
     const bool line = (c.type == LINEORIENTATION || c.type == FREELINE) && !c.euler;
     const std::string key = line ? std::string(c.rev ? "C03.reversedLine.quaternion" : "C03.forwardLine.quaternion")
         : std::string("C03.") + typeName[c.type] + (c.rev ? ".rev" : ".fwd") + (c.euler ? ".euler" : ".quat");
     if (nq > 0) {
-        fdPredicates(*S, key, cs, c.station);
-        nPredicates(*S, key, vu, vq, udot, c.unitQuat || !usesQuat(c.type) || c.euler);
+        fdPredicates(*S, std::vector<std::string>(1, key), cs, c.station);
+        nPredicates(*S, key, std::vector<std::string>(1, key), vu, vq, udot, c.unitQuat || !usesQuat(c.type) || c.euler);
     }
 }
 
@@ -143,12 +160,20 @@ static void runTree(const std::vector<Case>& cs, bool euler, const Vec3& station
     { Vec3 v = S->mobods.back().findStationVelocityInGround(s, station); vh::O("vS").v(v, 3).emit(); }
     vh::D("tree.n" + std::to_string(cs.size()) + (euler ? ".euler" : ".quat"));
     for (const Case& c : cs) vh::D("tree." + std::string(typeName[c.type]) + (c.rev ? ".rev" : ".fwd"));
-    // input class of the tree for the predicate keys: LineOrientation/FreeLine in quaternion mode are singled out
-    bool lineQuat = false, lineQuatRev = false;
-    for (const Case& c : cs) if ((c.type == LINEORIENTATION || c.type == FREELINE) && !euler) { lineQuat = true; if (c.rev) lineQuatRev = true; }
-    const std::string tkey = lineQuatRev ? "C03.reversedLine.quaternion" : lineQuat ? "C03.forwardLine.quaternion" : "C03.tree";
+    // predicate keys are per BODY: a body is in the narrow class `reversedLine.quaternion` for velocity/Coriolis iff it
+    // or one of its ancestors is a reversed LineOrientation/FreeLine in quaternion mode; the NDot block of a body is
+    // in a narrow class iff the body itself is such a mobilizer.  All other bodies of the tree stay under `C03.tree`.
+    std::vector<std::string> velKey(cs.size()), ndotKey(cs.size());
+    std::vector<bool> tainted(cs.size(), false);
+    for (size_t i = 0; i < cs.size(); ++i) {
+        const bool line = (cs[i].type == LINEORIENTATION || cs[i].type == FREELINE) && !euler;
+        tainted[i] = (line && cs[i].rev) || (cs[i].parent > 0 && tainted[cs[i].parent - 1]);
+        velKey[i] = tainted[i] ? "C03.reversedLine.quaternion" : "C03.tree";
+        ndotKey[i] = line ? (cs[i].rev ? "C03.reversedLine.quaternion" : "C03.forwardLine.quaternion") : "C03.tree";
+    }
+    const std::string tkey = "C03.tree";
     if (nq > 0) {
-        fdPredicates(*S, tkey, cs, station);
+        fdPredicates(*S, velKey, cs, station);
         vh::Rng g(12345 + cs.size());
         Vector vu(s.getNU()), vq(s.getNQ(), 0.0), udot(s.getNU());
         for (int i = 0; i < s.getNU(); ++i) { vu[i] = g.signedMag(0.1, 2); udot[i] = g.signedMag(0.1, 2); }
@@ -156,7 +181,7 @@ static void runTree(const std::vector<Case>& cs, bool euler, const Vec3& station
             const int q0 = S->mobods[b].getFirstQIndex(s);
             for (int k = 0; k < S->mobods[b].getNumQ(s); ++k) vq[q0 + k] = g.signedMag(0.1, 2);
         }
-        nPredicates(*S, tkey, vu, vq, udot, unit);
+        nPredicates(*S, tkey, ndotKey, vu, vq, udot, unit);
     }
 }
 
